@@ -82,7 +82,21 @@ def run(ctx):
     DL = r'^stream_len\('
 
     # D1a: empty data rejected before anything is read
-    c1 = _cmp_switch(fn, T, lambda op, a, b: op == 'Lt' and re.search(DL, a) and b == '1')
+    # any equivalent form of "the data is empty": data_len < 1, data_len == 0, 0 == data_len (true edge = empty); data_len != 0, data_len > 0, data_len >= 1 (false edge = empty)
+    c1 = []
+    for x in _cmp_switch(fn, T, lambda op, a, b: (re.search(DL, a) and b in ('0', '1')) or (re.search(DL, b) and a in ('0', '1'))):
+        bi_, tt_, ft_, a_, b_, rv_ = x
+        op = rv_['op']
+        if re.search(DL, b_):     # constant on the left: mirror
+            op = {'Lt': 'Gt', 'Gt': 'Lt', 'Le': 'Ge', 'Ge': 'Le'}.get(op, op); k = a_
+        else:
+            k = b_
+        empty_on_true = (op, k) in (('Lt', '1'), ('Eq', '0'), ('Le', '0'))
+        empty_on_false = (op, k) in (('Ne', '0'), ('Gt', '0'), ('Ge', '1'))
+        if empty_on_true:
+            c1.append(x)
+        elif empty_on_false:
+            c1.append((bi_, ft_, tt_, a_, b_, rv_))      # swap so that index 1 is the "empty" edge and index 2 the "non-empty" edge
     if ctx.ob('C13-D1', F, 'data_len < 1', 'comparison exists', len(c1) == 1, detail=str(len(c1)), nontrivial=False):
         bi, tt, ft, a, b, rv = c1[0]
         r = fn.reachable(tt, avoid=(bi,))
